@@ -55,7 +55,8 @@ contract(TR + "get_ttree_type", props=["C03", "C10", "C09"], params=dict(rep=REP
          requires=[("sequence_invariant", "implies(isinst(rep, '" + CRQ + "cpp_sequence'), seq_value(rep) != None and live(seq_value(rep)) and "
                                           "(field(rep, '_type', '" + CRQ + "cpp_sequence') == None or isinst(field(rep, '_type', '" + CRQ + "cpp_sequence'), '" + COLTYPE + "')))"),
                    ("nested_sequence_invariant", "implies(isinst(rep, '" + CRQ + "cpp_sequence') and isinst(seq_value(rep), '" + CRQ + "cpp_sequence'), "
-                                                 "field(seq_value(rep), '_type', '" + CRQ + "cpp_sequence') == None or isinst(field(seq_value(rep), '_type', '" + CRQ + "cpp_sequence'), '" + COLTYPE + "'))")],
+                                                 "field(seq_value(rep), '_type', '" + CRQ + "cpp_sequence') == None or (isinst(field(seq_value(rep), '_type', '" + CRQ + "cpp_sequence'), '" + COLTYPE + "') and "
+                                                 "field(field(seq_value(rep), '_type', '" + CRQ + "cpp_sequence'), '_tree_type') == None))")],
          covers=["isinst(rep, '" + CRQ + "cpp_sequence') and is_plain_value(seq_value(rep))",
                  "isinst(rep, '" + CRQ + "cpp_sequence') and isinst(seq_value(rep), '" + CRQ + "cpp_sequence')",
                  "is_plain_value(rep) and field(type_of(rep), '_tree_type') != None"],
